@@ -198,3 +198,60 @@ MUTANTS = [
     ("span_start_strict", "sqlfluff/core/templaters/base.py", "and self.raw_sliced[raw_slice_idx + 1].source_idx <= source_slice.start", "and self.raw_sliced[raw_slice_idx + 1].source_idx < source_slice.start"),
     ("so_slices_drop_block_mid", "sqlfluff/core/templaters/base.py", 'return self.slice_type in ("comment", "block_end", "block_start", "block_mid")', 'return self.slice_type in ("comment", "block_end", "block_start")'),
 ]
+
+
+# ------------------------------------------------------------------ bounded: template code survives real fixes
+def template_code_survives(tier, seed):
+    """end to end on the real linter (all rules except JJ01, the property's own exception): after fixing, every template
+    tag / expression / comment of the source occurs in the output, unchanged and in the original order.  This covers
+    what the proved gate cannot see: `source`-category patches produced by rules other than JJ01 (reflow source fixes)."""
+    import random
+    import re
+    from sqlfluff.core import FluffConfig, Linter
+    rng = random.Random(seed)
+    tag = re.compile(r"\{\{.*?\}\}|\{%.*?%\}|\{#.*?#\}", re.S)
+    heads = ["", " ", "   ", "\n", "  \n  "]
+    tags = ["{% if true %}", "{%- if true %}", "{% if true -%}", "{%- if true -%}", "{{ 'a' }}", "{{- 'a' }}", "{# c #}", "{#- c -#}",
+            "{% set q = 1 %}", "{%- set q = 1 -%}", "{% for i in [1, 2] %}", "{%- for i in [1] -%}"]
+    bodies = ["select 1", "select a,b from t", "SELECT  a  from t where x =1", "select\n    b +\n    ", "select a from t  ", "a"]
+    ends = {"if": "{% endif %}", "for": "{% endfor %}"}
+    cases = []
+    for h in heads:
+        for t in tags:
+            for b in bodies:
+                kind = "if" if " if " in t else ("for" if " for " in t else None)
+                cases.append(h + t + b + (ends[kind] if kind else "") + "\n")
+                cases.append(b + " " + t + ("x" + ends[kind] if kind else "") + "\n")
+    rng.shuffle(cases)
+    cases = ["   {%- if true %}select 1{% endif %}\n", "select\n    b +\n    {% set q = 1 %}1 as c\nfrom t\n",
+             "select a from t  {{ '  ' }}"] + cases
+    n = len(cases) if tier == "thorough" else 160
+    lnt = Linter(config=FluffConfig(overrides={"dialect": "ansi", "exclude_rules": "JJ01"}))
+    ev, nontriv, failed, samples = 0, 0, [], []
+    for sql in cases[:n]:
+        try:
+            lf = lnt.lint_string(sql, fix=True)
+            if lf.tree is None or lf.templated_file is None:
+                continue
+            fixed, _ = lf.fix_string()
+        except Exception:
+            continue
+        ev += 1
+        before, after = tag.findall(sql), tag.findall(fixed)
+        nontriv += 1 if fixed != sql else 0
+        if len(samples) < 3 and fixed != sql:
+            samples.append({"source": sql, "fixed": fixed})
+        if before != after:
+            if not failed or len(sql) < len(failed[0]["detail"]["source"]):
+                failed[:] = [{"name": "C10/e2e/template-code-unchanged", "id": "C10/e2e/template-code-unchanged", "kind": "bounded",
+                              "status": "failed", "function": "sqlfluff.core.linter.linter:Linter.lint_string",
+                              "detail": {"source": sql, "fixed": fixed, "tags_before": before, "tags_after": after,
+                                         "patches": [(p.patch_category, p.source_slice.start, p.source_slice.stop, p.fixed_raw)
+                                                     for p in (lf.source_patches or [])]},
+                              "reproduced": True}]
+    return {"name": "template-code-survives-fix", "bound": f"{n} generated templates (head x tag x body), JJ01 excluded",
+            "rule": "non-trivial = the fix changed the text", "evaluations": ev, "distinct_nontrivial": nontriv,
+            "samples": samples, "failed": failed}
+
+
+BOUNDED = [template_code_survives]
